@@ -446,6 +446,49 @@ def jweDecrypt {EK DK : Type} (A : AeadPrim) (K : KeyMgmt EK DK) (z : Option Zip
     | .err k => err k
     | .panic => .panic
 
+/-- A multi-recipient JWE (general JSON serialisation): ONE content encryption (protected header, IV,
+ciphertext, tag, AAD), and one encrypted key per recipient, in the order of the `recipients` array. -/
+structure JweMulti where
+  prot : Bytes
+  iv : Bytes
+  ct : Bytes
+  tag : Bytes
+  aad : Option Bytes
+  eks : List Bytes
+  deriving DecidableEq, Repr
+
+/-- `MultiEncrypter.Encrypt`: the CEK is wrapped once for every recipient key. -/
+def jweEncryptMulti {EK DK : Type} (A : AeadPrim) (K : KeyMgmt EK DK) (z : Option Zip) (ekeys : List EK)
+    (cek iv prot pt : Bytes) (aad : Option Bytes) : JweMulti :=
+  let c := A.sealF cek iv (zipApply z pt) (jweEncrypt.bytesOfText (aadInput prot (normAad aad)))
+  { prot := prot, iv := iv, ct := c.1, tag := c.2, aad := normAad aad, eks := ekeys.map (K.wrap · cek) }
+
+/-- The recipient loop of `JsonWebEncryption.Decrypt`: for every entry in order, unwrap with the caller's
+key; if that gives a CEK try the content decryption; the FIRST entry for which both succeed ends the loop.
+A CEK that does not open the content (RSA1_5 hands back a random one for a foreign entry, by design) is
+not the end: the loop goes on with the next entry. No entry succeeded: `ErrCryptoFailure`. -/
+def jweDecryptLoop {EK DK : Type} (A : AeadPrim) (K : KeyMgmt EK DK) (dkey : DK) (o : JweMulti) : List Bytes → Res Bytes
+  | [] => err .generic
+  | ek :: rest =>
+    match K.unwrap dkey ek with
+    | none => jweDecryptLoop A K dkey o rest
+    | some cek =>
+      match decryptResult (A.openF cek o.iv o.ct o.tag (jweEncrypt.bytesOfText (aadInput o.prot o.aad))) with
+      | .ok pt => ok pt
+      | .err _ => jweDecryptLoop A K dkey o rest
+      | .panic => .panic
+
+def jweDecryptMulti {EK DK : Type} (A : AeadPrim) (K : KeyMgmt EK DK) (z : Option Zip) (dkey : DK) (o : JweMulti) : Res Bytes :=
+  match jweDecryptLoop A K dkey o o.eks with
+  | .ok pt =>
+    (match z with
+     | none => ok pt
+     | some z => match z.inflate pt with
+       | some x => ok x
+       | none => err .generic)
+  | .err k => err k
+  | .panic => .panic
+
 def jweCompact (o : Jwe) : List Char := compactSerialize [o.prot, o.ek, o.iv, o.ct, o.tag]
 
 def jweParse (s : List Char) : Res Jwe :=
